@@ -26,3 +26,16 @@ package integrate
 //@   ensures [out] outputZoom < inputZoom && vidx(vIndex, inputZoom) ==> len(r0) == 1 && r0[0] == vid(outputZoom, anc(vIndex, inputZoom - outputZoom))
 //@   loop 0 invariant vidx(vIndex, inputZoom) ==> minVparam <= v && v <= maxVparam + 1 && len(verticalIDs) == v - minVparam && (forall k :: 0 <= k && k < len(verticalIDs) ==> verticalIDs[k] == vid(outputZoom, minVparam + k))
 //@ end
+
+//@ define zw(zin, zout) = ite(zout >= zin, pow2(zout - zin), 1)
+
+//@ func HorizontalZoom
+//@   props C03 C10 C11
+//@   split inputZoom 0..35
+//@   split outputZoom 0..35
+//@   valid idx(xIndex, inputZoom) && idx(yIndex, inputZoom)
+//@   ensures [in] outputZoom >= inputZoom && idx(xIndex, inputZoom) && idx(yIndex, inputZoom) ==> len(r0) == pow2(outputZoom - inputZoom) * pow2(outputZoom - inputZoom) && (forall k :: 0 <= k && k < len(r0) ==> r0[k] == hid(outputZoom, xIndex * pow2(outputZoom - inputZoom) + fmod(k, pow2(outputZoom - inputZoom)), yIndex * pow2(outputZoom - inputZoom) + fdiv(k, pow2(outputZoom - inputZoom))))
+//@   ensures [out] outputZoom < inputZoom && idx(xIndex, inputZoom) && idx(yIndex, inputZoom) ==> len(r0) == 1 && r0[0] == hid(outputZoom, anc(xIndex, inputZoom - outputZoom), anc(yIndex, inputZoom - outputZoom))
+//@   loop 0 invariant idx(xIndex, inputZoom) && idx(yIndex, inputZoom) ==> minYparam <= y && y <= maxYparam + 1 && len(horizontalIDs) == (y - minYparam) * zw(inputZoom, outputZoom) && (forall k :: 0 <= k && k < len(horizontalIDs) ==> horizontalIDs[k] == hid(outputZoom, minXparam + fmod(k, zw(inputZoom, outputZoom)), minYparam + fdiv(k, zw(inputZoom, outputZoom))))
+//@   loop 1 invariant idx(xIndex, inputZoom) && idx(yIndex, inputZoom) ==> minYparam <= y && y <= maxYparam && minXparam <= x && x <= maxXparam + 1 && len(horizontalIDs) == (y - minYparam) * zw(inputZoom, outputZoom) + (x - minXparam) && (forall k :: 0 <= k && k < len(horizontalIDs) ==> horizontalIDs[k] == hid(outputZoom, minXparam + fmod(k, zw(inputZoom, outputZoom)), minYparam + fdiv(k, zw(inputZoom, outputZoom))))
+//@ end
